@@ -447,10 +447,20 @@ fn corruption_scenario_sized(seed: u64, max_reads: Option<u64>) -> ScenarioOut {
     let nreads = r.range(3, 30).min(max_reads.unwrap_or(u64::MAX));
     let plan: Vec<(usize, u64, usize)> = (0..nreads).map(|_| (r.usize_below(2), r.range(0, 200), r.range(1, 64) as usize)).collect();
     let observed_path = if r.coin() { Some(0usize) } else { None };
+    // a second barrier of the same trigger type that is dropped before anything happens
+    // (created before or after the observing one): dropping it must not affect the other
+    let extra_mode = r.below(3); // 0 none, 1 created first, 2 created second
+    let mut extra: Option<Barrier<FsCorruption>> = if extra_mode == 1 { Some(Barrier::new(|c: &FsCorruption| c.path.ends_with("f1"))) } else { None };
     let mut bar: Barrier<FsCorruption> = match observed_path {
         Some(_) => Barrier::new(|c: &FsCorruption| c.path.ends_with("f0")),
         None => Barrier::new(|_c: &FsCorruption| true),
     };
+    if extra_mode == 2 {
+        extra = Some(Barrier::new(|c: &FsCorruption| c.path.ends_with("f1")));
+    }
+    if extra.take().is_some() {
+        out.count("fs_sibling_barriers_dropped_before_the_run", 1);
+    }
     let lg = log.clone();
     let pl = plan.clone();
     sim.client("fs", async move {
@@ -634,13 +644,13 @@ pub fn run(ctx: &Ctx) -> ! {
 fn fin() -> Finish<'static> {
     Finish {
         level: "exploration",
-        rule: "seeded scenarios: 1-5 triggering tasks on 1-3 hosts calling trigger (classes 0-3) / trigger_noop (classes 4-5) at seeded instants, 1-7 barrier creations / drops between steps (Noop / Suspend / Panic, overlapping class sets), reports drained after every step, Suspend handles dropped after 0/1/2/5 steps or never; plus FsCorruption scenarios (corruption_probability 1.0 / 0.5, barrier on one path or on all); every scenario on a fresh OS thread (thread-local registry); non-trivial = >=2 reports; distinct = digest of the history",
+        rule: "seeded scenarios: 1-5 triggering tasks on 1-3 hosts calling trigger (classes 0-3) / trigger_noop (classes 4-5) at seeded instants, 1-7 barrier creations / drops between steps (Noop / Suspend / Panic, overlapping class sets), reports drained after every step, Suspend handles dropped after 0/1/2/5 steps or never; plus FsCorruption scenarios (corruption_probability 1.0 / 0.5, barrier on one path or on all, optionally a sibling barrier of the same type created before/after it and dropped again before the run); plus flood scenarios (1100-2600 triggers per barrier drained only at the end); every scenario on a fresh OS thread (thread-local registry); non-trivial = >=2 reports; distinct = digest of the history",
         assumptions: vec![
             "trigger_noop is never aimed at a Suspend barrier (documented panic)".into(),
             "barriers are created and dropped only between steps, so liveness at a trigger call is unambiguous".into(),
             "triggers at or after a Panic-barrier hit are outside the oracle (the host is gone)".into(),
         ],
         min_distinct: 100,
-        required_counters: vec!["reports_checked", "suspensions_observed", "resumes_observed", "calls_matching_several_barriers", "calls_matching_no_barrier", "panics_surfaced", "fs_corruption_reports", "calls_matching_noop", "flood_scenarios"],
+        required_counters: vec!["reports_checked", "suspensions_observed", "resumes_observed", "calls_matching_several_barriers", "calls_matching_no_barrier", "panics_surfaced", "fs_corruption_reports", "calls_matching_noop", "flood_scenarios", "fs_sibling_barriers_dropped_before_the_run"],
     }
 }
